@@ -95,10 +95,10 @@ func hasTypeParamArg(fn *ssa.Function) bool {
 // (untagged or tagged with it) to prove.
 func (ex *Exec) contractHasPropClauses(c *Contract) bool {
 	if len(c.Tags) > 0 {
-		return tagActive(c.Tags, ex.prop)
+		return tagOwned(c.Tags, ex.prop)
 	}
 	for _, cl := range c.Clauses {
-		if len(cl.Tags) == 0 || tagActive(cl.Tags, ex.prop) {
+		if cl.Kind != "requires" && tagOwned(cl.Tags, ex.prop) {
 			return true
 		}
 	}
@@ -157,14 +157,33 @@ func (ex *Exec) localEnv(fr *Frame, st *State) *CEnv {
 	return env
 }
 
+// verifyAll verifies fn once, or once per literal of a "cases" clause.
+func (ex *Exec) verifyAll(fn *ssa.Function) []*FuncReport {
+	c := ex.activeContract(funcKey(fn))
+	for _, cl := range c.Clauses {
+		if cl.Kind == "cases" && tagActive(cl.Tags, ex.prop) {
+			var out []*FuncReport
+			for _, lit := range cl.Cases {
+				out = append(out, ex.verifyFunc(fn, cl.Names[0], lit))
+			}
+			return out
+		}
+	}
+	return []*FuncReport{ex.verifyFunc(fn, "", nil)}
+}
+
 // verifyFunc generates the obligations of one function under contract.
-func (ex *Exec) verifyFunc(fn *ssa.Function) *FuncReport {
+func (ex *Exec) verifyFunc(fn *ssa.Function, caseParam string, caseLit Expr) *FuncReport {
 	key := funcKey(fn)
 	c := ex.activeContract(key)
 	ex.curKey = key
 	ex.curInst = instName(fn)
+	if caseLit != nil {
+		ex.curInst = caseParam + "=" + caseLit.String()
+	}
 	before := len(ex.obls)
 	ex.paths = 0
+	ex.steps = 0
 	rep := &FuncReport{Key: shortKey(key), Inst: ex.curInst, Pos: ex.pos(fn.Pos())}
 
 	st := ex.initState()
@@ -172,6 +191,10 @@ func (ex *Exec) verifyFunc(fn *ssa.Function) *FuncReport {
 	env := &CEnv{ex: ex, st: st, vars: map[string]TV{}, fn: fn}
 	for _, p := range fn.Params {
 		v := ex.freshVal(st, p.Type(), "in_"+p.Name())
+		if caseLit != nil && p.Name() == caseParam {
+			want, _ := sortOfType(p.Type())
+			v = ex.eval(caseLit, &CEnv{ex: ex, st: st, vars: map[string]TV{}, fn: fn}, want).V
+		}
 		args = append(args, v)
 		env.vars[p.Name()] = TV{v, p.Type()}
 	}
@@ -191,7 +214,17 @@ func (ex *Exec) verifyFunc(fn *ssa.Function) *FuncReport {
 	for i, p := range fn.Params {
 		fr.env[p] = args[i]
 	}
+	ex.topFrame = fr
 	outs := ex.runBlock(fr, st, fn.Blocks[0], 0)
+	// every assert clause must have met its call site (else the contract is stale)
+	for _, cl := range c.Clauses {
+		if cl.Kind == "assert" && tagActive(cl.Tags, ex.prop) {
+			if !cl.Reached {
+				ex.cerr("%s:%d: assert @%s never reached in %s", cl.File, cl.Line, cl.Names[0], shortKey(key))
+			}
+			cl.Reached = false
+		}
+	}
 
 	rts := resultTypes(fn.Signature)
 	nret := 0
@@ -221,7 +254,7 @@ func (ex *Exec) verifyFunc(fn *ssa.Function) *FuncReport {
 			penv.vars["result"] = TV{o.Ret[0], rts[0]}
 		}
 		for _, cl := range c.Clauses {
-			if cl.Kind != "ensures" || !tagActive(cl.Tags, ex.prop) {
+			if cl.Kind != "ensures" || !tagOwned(cl.Tags, ex.prop) {
 				continue
 			}
 			g := ex.evalBool(cl.E, penv)
@@ -231,6 +264,24 @@ func (ex *Exec) verifyFunc(fn *ssa.Function) *FuncReport {
 			}
 			ob := ex.addObl(o.St, "ensures", ex.oblName("ensures", "#"+label), g, fn.Pos(), cl.Text)
 			ob.Vars = ex.replayVars(fn, args, o.Ret)
+		}
+		// heap frame of functions declared pure: every heap map is what it was at entry
+		if c.Flags["pure"] {
+			if _, havocked := o.St.heap["!epoch"]; havocked {
+				ex.addObl(o.St, "frame", ex.oblName("frame", "#heap"), TFalse, fn.Pos(), "declared pure but calls code that may write the heap")
+			} else {
+				for _, k := range sortedKeys(o.St.heap) {
+					cur := o.St.heap[k]
+					old := ex.heapArr(entry, k, "")
+					if cur.S != old.S {
+						// objects allocated by this activation (negative references) are not part of the frame
+						_, vs := arraySorts(cur.Sort)
+						g := &Term{S: fmt.Sprintf("(forall ((r!q Int)) (=> (>= r!q 0) (= (select %s r!q) (select %s r!q))))", cur.S, old.S), Sort: SBool}
+						_ = vs
+						ex.addObl(o.St, "frame", ex.oblName("frame", "#heap:"+k), g, fn.Pos(), "declared pure: heap map "+k+" unchanged on pre-existing objects")
+					}
+				}
+			}
 		}
 		// ghost frame: ghosts not listed in modifies are unchanged
 		mod := ex.contractEffects(c).Ghosts
@@ -281,7 +332,7 @@ func (ex *Exec) replayVars(fn *ssa.Function, args []Val, rets []Val) map[string]
 // lemmas: formulas over spec functions only, discharged without code.
 func (ex *Exec) lemmaObligations() {
 	for _, l := range ex.lib.Lemmas {
-		if !tagActive(l.Tags, ex.prop) || len(l.Tags) == 0 {
+		if !tagOwned(l.Tags, ex.prop) || len(l.Tags) == 0 {
 			continue
 		}
 		ex.curKey = "lemma"
